@@ -91,7 +91,43 @@ func lengthProbes(c *sim.Ctx, a *ref.AP) {
 // value, CONNECT client id + password) and round-trip each packet.
 const c01SweepRuns = 64
 
+// c01Monotone: ONE goroutine walks the PUBLISH payload length upwards in steps
+// of one byte (run 0 is the first thing the check process executes, so any
+// process-wide scratch state of the library is still fresh): every total frame
+// size from 7 bytes up is written and read back once, in order.
+func c01Monotone(c *sim.Ctx) *sim.Violation {
+	max := 6000
+	if c.Thorough {
+		max = 24000
+	}
+	g := gen.NewG(c.T, c.Thorough, 0)
+	base := g.Bin(max + 1)
+	for n := 0; n <= max; n++ {
+		p := mq.NewPublish()
+		p.SetTopicName("t")
+		p.SetPayload(base[:n])
+		b, werr, pi := encodeReal(p)
+		if werr != nil || pi != nil {
+			return sim.V("C01/PUBLISH/monotone-size-walk/WriteTo", "payload length %d: err=%v panic=%v", n, werr, pi)
+		}
+		got := ReadOne(link.NewReader(c.Muted(), b, link.Mode{}))
+		if got.Kind != "packet" {
+			return sim.V("C01/PUBLISH/monotone-size-walk/decode", "payload length %d (frame of %d bytes): %s", n, len(b), got)
+		}
+		if q, ok := got.P.(*mq.Publish); !ok || !bytes.Equal(q.Payload(), base[:n]) || q.TopicName() != "t" {
+			return sim.V("C01/PUBLISH/monotone-size-walk/Payload", "payload length %d (frame of %d bytes): the payload read back differs from the one set", n, len(b))
+		}
+	}
+	c.CountN("sweep.monotone-size-walk.sizes", int64(max+1))
+	return nil
+}
+
 func c01LengthSweep(c *sim.Ctx) *sim.Violation {
+	if c.Run == 0 {
+		if v := c01Monotone(c); v != nil {
+			return v
+		}
+	}
 	block := 32
 	if c.Thorough {
 		block = 1024 // 64 runs x 1024 = every length 0..65535
@@ -101,6 +137,11 @@ func c01LengthSweep(c *sim.Ctx) *sim.Violation {
 	for n := lo; n < lo+block && n <= 65535; n++ {
 		var aps []*ref.AP
 		aps = append(aps, &ref.AP{Type: ref.Publish, Topic: g.Str(n), Payload: g.Bin(n % 4096)})
+		// every total frame size in turn: a one-byte topic and a payload of n (quick: 2 per length block, covering 0..4095) bytes
+		aps = append(aps, &ref.AP{Type: ref.Publish, Flags: 2, PacketID: 5, Topic: []byte("t"), Payload: g.Bin(n)})
+		if !c.Thorough {
+			aps = append(aps, &ref.AP{Type: ref.Publish, Topic: []byte("t"), Payload: g.Bin(2048 + n)})
+		}
 		aps = append(aps, &ref.AP{Type: ref.PubAck, PacketID: 7, Reason: 0x10, Props: []ref.Prop{{ID: 0x26, K: []byte("k"), V: g.Str(n)}}})
 		cn := &ref.AP{Type: ref.Connect, ProtoName: []byte("MQTT"), ProtoVer: 5, ClientID: g.Str(n % 4096), Password: g.Bin(n)}
 		if n > 0 {
